@@ -119,6 +119,11 @@ def make_run(g, seed):
         if rng.random() < 0.3:
             steps.append({"op": "size_get", "p": 0})
     steps.append({"op": "size_get", "p": 0})
+    if rng.random() < 0.2:
+        # the property holds for every history - also after the pool was closed
+        steps += [{"op": "flush", "p": 0, "rex": 1}, {"op": "gather", "p": 0, "rex": 1}, {"op": "idle"},
+                  {"op": "size_set", "p": 0, "v": rng.choice([-1, -3])}, {"op": "size_get", "p": 0},
+                  {"op": "size_set", "p": 0, "v": rng.choice([0, 1, 5, None])}, {"op": "size_get", "p": 0}]
     return {"clean": True, "probe": False, "config": {"hmask": 0, "pools": [pcfg]}, "steps": steps,
             "prop": "C15", "seed": seed, "grid": list(g)}
 
